@@ -10,7 +10,8 @@ from props import c02, c08
 
 REQUIRED_THEOREMS = ['C17_hier_lengths', 'C17_grad_length', 'C17_reduced_lengths',
                      'C17_prefixed_nodup', 'C17_labels_nodup', 'C17_labels_reject_iff',
-                     'C17_labels_early_test_counterexample']
+                     'C17_labels_early_test_counterexample', 'C17_resize_state', 'C17_resize_names',
+                     'C17_resize_free_count_counterexample']
 RULE = ('every kind of object (error models, population models incl. composed / covariate / reduced, individual '
         'and hierarchical likelihoods and posteriors, predictive models, SBML mechanistic models on the '
         'reference integrator) in random compositions (thorough: every composition of <=3 elementary sub-models '
@@ -201,6 +202,7 @@ def reduced_then_resized(ctx, chi, rng):
     ks = [k for k in range(1, kmax + 1) if k % H == 0]
     k = int(rng.choice(ks)) if ks and rng.random() < 0.7 else int(rng.integers(1, len(stable) + 1))
     fx = [stable[j] for j in rng.choice(len(stable), size=k, replace=False)]
+    names_old = list(names)
     pm.fix_parameters({n: 1.0 for n in fx})
     n1 = n0 - k // H if (k % H == 0 and n0 - k // H >= 1) else int(rng.integers(1, 5))
     via_hier = rng.random() < 0.5
@@ -232,6 +234,9 @@ def reduced_then_resized(ctx, chi, rng):
     want = [n for n in fresh.get_parameter_names() if n not in fx]
     try:
         got = pm.get_parameter_names()
+        mo = ctx.model('C17.resize', names_old, [[[n, 1.0] for n in fx]], list(fresh.get_parameter_names()))
+        ctx.agree('C17.resize.names', list(got), mo[0], inp)
+        ctx.agree('C17.resize.n_fixed', pm.n_fixed_parameters(), mo[1], inp)
         ctx.spec('C17.population.names_after_resize', got == want and pm.n_parameters() == len(want) and
                  pm.n_fixed_parameters() == len(fx), inp, {'names': got, 'expected': want, 'n': pm.n_parameters()})
     except Exception as e:  # noqa
